@@ -119,8 +119,8 @@ ROOTS = {}
 
 
 def prepare(job):
-    import ops_store
-    ROOTS.update(ops_store.pathconf()['roots'])
+    # the roots come from the set-up process: the pristine interpreter must not have touched any path configuration
+    ROOTS.update(job['roots'])
     FUNCS.update(Sid=Sid, unfold=unfold_search, simple_typing=simple_typing, sid_to_dict=sid_to_dict, sid_to_dicts=sid_to_dicts,
                  get_path_config=get_path_config, get_finder=get_finder)
 
@@ -198,9 +198,10 @@ def events_since(n):
 
 
 def undo_create(job):
-    p = Sid(job['missing']).path()
-    if p and p.exists():
-        os.remove(str(p))
+    # (plain file operation: the pristine interpreter must not resolve anything itself)
+    p = job['missing_path']
+    if p and os.path.exists(p):
+        os.remove(p)
 
 
 def in_child(fn):
@@ -240,7 +241,8 @@ def setup(jobfile):
                fields1=dict(sid1.fields), query1=Sid('/'.join(parts[:3])).as_query(), overlay=job['overlay_key'] + '=' + job['overlay_val'],
                type_of={s1: sid1.type, s2: Sid(s2).type},
                paths={c: str(sid1.path(c)) for c in pc['cfgs']},
-               missing='/'.join(parts[:-1] + [job['missing_ext']]),
+               missing='/'.join(parts[:-1] + [job['missing_ext']]), roots=dict(pc['roots']),
+               missing_path=str(Sid('/'.join(parts[:-1] + [job['missing_ext']])).path()),
                search_or='/'.join(parts[:2] + [parts[2] + ',' + job['other_level3']]) + '/*',
                search_or_alt='/'.join(parts[:2] + [job['other_level3']]) + '/*',
                search_or2=parts[0] + '/' + job['other_level2'] + ',' + parts[1] + '/*')
